@@ -14,6 +14,7 @@ fn main() {
         "c15" => c15(seed),
         "c11" => c11(seed),
         "c11_ep" => c11_ep(),
+        "c10" => c10(seed),
         _ => {
             eprintln!("unknown subcommand");
             std::process::exit(2);
@@ -184,4 +185,108 @@ fn c11_ep() {
         std::process::exit(1);
     }
     println!("{{\"ok\":true,\"cases\":1}}");
+}
+
+
+// ---------------------------------------------------------------------------------------------------------
+/// C10 witness search: random interleavings of move attempts (legal and illegal), offers, accepts, resignations and
+/// draw declarations from several start positions (including already finished ones), against an independent model of
+/// the protocol written from the statement.  Supplies concrete action sequences for failing Verus obligations.
+#[derive(Clone, Copy, PartialEq, Debug)]
+enum MAct { Move(ChessMove), Offer(Color), Accept, Declare, Resign(Color) }
+
+fn model_result(start: &Board, log: &[MAct]) -> Option<GameResult> {
+    let mut b = *start;
+    for a in log { if let MAct::Move(m) = a { b = b.make_move_new(*m); } }
+    let moves = MoveGen::new_legal(&b).len();
+    if moves == 0 {
+        if *b.checkers() != EMPTY {
+            return Some(if b.side_to_move() == Color::White { GameResult::BlackCheckmates } else { GameResult::WhiteCheckmates });
+        }
+        return Some(GameResult::Stalemate);
+    }
+    match log.last() {
+        Some(MAct::Accept) => Some(GameResult::DrawAccepted),
+        Some(MAct::Declare) => Some(GameResult::DrawDeclared),
+        Some(MAct::Resign(Color::White)) => Some(GameResult::WhiteResigns),
+        Some(MAct::Resign(Color::Black)) => Some(GameResult::BlackResigns),
+        _ => None,
+    }
+}
+
+fn c10(seed: u64) {
+    use std::str::FromStr;
+    let mut rng = Rng(seed.wrapping_mul(0x9E3779B97F4A7C15) | 1);
+    let starts = [
+        "rnbqkbnr/pppppppp/8/8/8/8/PPPPPPPP/RNBQKBNR w KQkq - 0 1",
+        "rnb1kbnr/pppp1ppp/8/4p3/6Pq/5P2/PPPPP2P/RNBQKBNR w KQkq - 1 3", // fool's mate: already checkmate
+        "7k/5Q2/6K1/8/8/8/8/8 b - - 0 1",                                 // already stalemate
+        "r3k2r/8/8/8/8/8/8/R3K2R b KQkq - 0 1",
+        "8/8/8/8/8/5k2/6q1/7K w - - 0 1",                                 // checkmate, white to move
+        "4k3/8/8/8/8/8/4P3/4K3 b - - 0 1",
+    ];
+    let mut cases = 0u64;
+    let deadline = std::time::Instant::now() + std::time::Duration::from_secs(15);
+    while std::time::Instant::now() < deadline {
+        let fen = starts[(rng.next() % starts.len() as u64) as usize];
+        let start = Board::from_str(fen).unwrap();
+        let mut g = Game::new_with_board(start);
+        let mut log: Vec<MAct> = vec![];
+        let mut text = String::new();
+        for _ in 0..24 {
+            let before = model_result(&start, &log);
+            let mut cur = start;
+            for a in &log { if let MAct::Move(m) = a { cur = cur.make_move_new(*m); } }
+            let legal: Vec<ChessMove> = MoveGen::new_legal(&cur).collect();
+            let k = rng.next() % 10;
+            let (act, got): (MAct, bool) = if k < 4 && !legal.is_empty() {
+                let m = legal[(rng.next() % legal.len() as u64) as usize];
+                (MAct::Move(m), g.make_move(m))
+            } else if k < 5 {
+                let m = ChessMove::new(Square::new((rng.next() % 64) as u8), Square::new((rng.next() % 64) as u8), None);
+                (MAct::Move(m), g.make_move(m))
+            } else if k < 7 {
+                let c = if rng.next() % 2 == 0 { Color::White } else { Color::Black };
+                (MAct::Offer(c), g.offer_draw(c))
+            } else if k < 8 {
+                (MAct::Accept, g.accept_draw())
+            } else if k < 9 {
+                let c = if rng.next() % 2 == 0 { Color::White } else { Color::Black };
+                (MAct::Resign(c), g.resign(c))
+            } else {
+                (MAct::Declare, g.declare_draw())
+            };
+            text.push_str(&format!("{:?}->{} ", act, got));
+            // model: what should have happened
+            let stm_now = cur.side_to_move();
+            let want = match act {
+                _ if before.is_some() => false,
+                MAct::Move(m) => legal.contains(&m),
+                MAct::Offer(_) | MAct::Resign(_) => true,
+                MAct::Accept => match log.last() {
+                    Some(MAct::Offer(_)) => true,
+                    Some(MAct::Move(_)) => log.len() > 1 && log[log.len() - 2] == MAct::Offer(!stm_now),
+                    _ => false,
+                },
+                MAct::Declare => got, // claimability itself is C11
+            };
+            if want { log.push(act); }
+            cases += 1;
+            let mut pos = start;
+            for a in &log { if let MAct::Move(m) = a { pos = pos.make_move_new(*m); } }
+            let ok = got == want
+                && g.result() == model_result(&start, &log)
+                && g.current_position() == pos
+                && g.side_to_move() == pos.side_to_move()
+                && g.actions().len() == log.len();
+            if !ok {
+                println!(
+                    "{{\"ok\":false,\"cases\":{},\"witness\":{{\"what\":\"Game disagrees with the protocol model\",\"start\":\"{}\",\"actions_and_returns\":\"{}\",\"last_return\":{},\"expected_return\":{},\"result\":\"{:?}\",\"expected_result\":\"{:?}\",\"log_len\":{},\"expected_log_len\":{}}}}}",
+                    cases, fen, text.trim(), got, want, g.result(), model_result(&start, &log), g.actions().len(), log.len()
+                );
+                std::process::exit(1);
+            }
+        }
+    }
+    println!("{{\"ok\":true,\"cases\":{}}}", cases);
 }
